@@ -11,6 +11,18 @@ pub mod option_i64_null_as_zero {
             write!(formatter, "an integer")
         }
 
+        fn visit_none<E: Error>(self) -> Result<Self::Value, E> {
+            Ok(None)
+        }
+
+        fn visit_unit<E: Error>(self) -> Result<Self::Value, E> {
+            Ok(None)
+        }
+
+        fn visit_some<D: Deserializer<'de>>(self, deserializer: D) -> Result<Self::Value, D::Error> {
+            deserializer.deserialize_i64(IntVisitor)
+        }
+
         fn visit_i64<E: Error>(self, value: i64) -> Result<Self::Value, E> {
             if value == 0 {
                 Ok(None)
@@ -34,7 +46,7 @@ pub mod option_i64_null_as_zero {
     where
         D: Deserializer<'de>,
     {
-        deserializer.deserialize_i64(IntVisitor)
+        deserializer.deserialize_option(IntVisitor)
     }
 
     pub fn serialize<S>(value: &Option<i64>, serializer: S) -> Result<S::Ok, S::Error>
